@@ -583,6 +583,9 @@ func (s *schemaInst) register(so *schemabuilder.Object, f *funcSpec) {
 	if f.batch || f.expensive {
 		s.hasBatchEx = true
 	}
+	if f.expensive {
+		s.paginated["expensive:"+f.owner.name+"."+f.name] = true // hint for the query generator
+	}
 	owner := f.owner.goType
 	switch {
 	case f.paginated:
